@@ -15,6 +15,7 @@ import (
 // choice bounded by a context-switch budget.
 
 type goroutine struct {
+	blockedOn string
 	id      int
 	wake    chan struct{}
 	done    bool
@@ -79,7 +80,16 @@ func (s *scheduler) yield() {
 	cur := s.cur
 	run := s.runnable()
 	if len(run) == 0 {
-		panic(pathEnd{"deadlock", "all goroutines blocked"})
+		msg := "all goroutines blocked"
+		for _, g := range s.gs {
+			if !g.done && g.blockedOn != "" {
+				msg += fmt.Sprintf("; g%d: %s", g.id, g.blockedOn)
+			}
+		}
+		if s.e != nil && s.e.finishBudget > 0 && s.cur == s.gs[0] {
+			s.e.finishViolation(msg)
+		}
+		panic(pathEnd{"deadlock", msg})
 	}
 	curRunnable := run[0] == cur
 	var next *goroutine
@@ -128,11 +138,16 @@ func (e *Engine) blockUntil(ready func() bool, what string) {
 	}
 	s := e.sched
 	cur := s.cur
+	cur.blockedOn = what
+	if e.blockFrame != nil {
+		cur.blockedOn = what + " at " + e.where(e.blockFrame)
+	}
 	for !ready() {
 		cur.blocked = func() bool { return !ready() }
 		s.yield()
 	}
 	cur.blocked = nil
+	cur.blockedOn = ""
 }
 
 func (e *Engine) yield() {
